@@ -868,7 +868,12 @@ func (s *Sim) finishTask(t *Task) {
 		delete(ls.readers, t)
 		_ = k
 	}
-	if r != nil {
+	if r != nil && t.dying {
+		// The task was being unwound (end of the run, or its node crashed) together with its peers: a peer that
+		// was unwound first ran its deferred calls (a WaitGroup.Done, a channel close) and this task went on for a
+		// few statements over state no real execution produces. Whatever it tripped over says nothing about the code.
+		s.Stats.Probes["simrt.panic-while-being-unwound"]++
+	} else if r != nil {
 		buf := make([]byte, 4096)
 		n := runtime.Stack(buf, false)
 		s.Stats.TaskPanics = append(s.Stats.TaskPanics, fmt.Sprintf("%s: %v\n%s", t.Name, r, buf[:n]))
